@@ -109,6 +109,51 @@ def gen_fee_case(rng):
             "steps": rng.choice([0, 1, 13, 175940720, 10**10]), "mem": rng.choice([0, 1, 3, 399882, 10**7]), "ref": ref}
 
 
+# ---- the builder's final fee loop: every call of _estimate_fee is recorded as (builder, fee in force, estimate) ------------------
+from pycardano.txbuilder import TransactionBuilder as _TB  # noqa: E402
+
+_EST_LOG = []
+if not getattr(_TB._estimate_fee, "_c07_wrapped", False):
+    _orig_estimate = _TB._estimate_fee
+
+    def _recording_estimate(self):
+        v = _orig_estimate(self)
+        _EST_LOG.append((id(self), int(self.fee or 0), int(v)))
+        return v
+    _recording_estimate._c07_wrapped = True
+    _TB._estimate_fee = _recording_estimate
+
+
+def check_fee_loop(ctx, sc, run, body_fee):
+    """the trailing chain of recorded estimates (f0, e0 > f0), (e0, e1 > e0), ..., (f, e <= f) is the run of the final loop of
+    _add_change_and_fee; the Lean loop over that table must end at the fee of the body, and the loop's post-condition
+    (theorem fee_loop_post) must hold on the implementation: a fresh estimate on the finished builder is <= body.fee"""
+    recs = [(f, e) for (i, f, e) in _EST_LOG if i == id(run.builder)]
+    if not recs or not sc.get("build", {}).get("change"):
+        return
+    chain = [recs[-1]]
+    for f, e in reversed(recs[:-1]):
+        if e == chain[0][0] and e > f:
+            chain.insert(0, (f, e))
+        else:
+            break
+    ctx.count(f"fee-loop:passes={len(chain)}")
+    if chain[-1][1] > chain[-1][0] or chain[-1][0] != body_fee:
+        ctx.diff("fee.loop:exit", sc, {"exit": "estimate <= fee == body.fee"}, {"chain": chain, "body_fee": body_fee})
+        return
+    if ctx.have_driver():
+        m = ctx.driver().ok({"op": "fee.loop", "f": str(chain[0][0]), "table": [[str(f), str(e)] for f, e in chain]})
+        ctx.traces += 1
+        if m is None or int(m) != body_fee:
+            ctx.diff("fee.loop", sc, m, body_fee)
+    try:
+        again = _orig_estimate(run.builder)
+    except Exception:  # noqa: BLE001
+        return
+    if again > body_fee:
+        ctx.diff("fee.loop:post-condition", sc, f"estimate on the finished builder <= {body_fee}", again)
+
+
 # ---- B. built and signed transactions ------------------------------------------------------------------------------------
 SLACK_BYTES = 64   # "a few dozen bytes": fee / change field widths, placeholder vs final values
 
@@ -128,6 +173,7 @@ def ref_script_bytes(sc, body):
 def check_signed(ctx, sc):
     sc = dict(sc)
     sc["sign"] = ALL_KEYS
+    del _EST_LOG[:]
     run = S.run(sc, sign=True)
     if run.error:
         ctx.count("refused:" + run.error)
@@ -150,6 +196,7 @@ def check_signed(ctx, sc):
     need = L.min_fee(txb, a, b, S.frac(p["price_mem"]), S.frac(p["price_step"]), refb, ref)
     over = B.fee - need
     ctx.count("built")
+    check_fee_loop(ctx, sc, run, B.fee)
     ctx.count("over-bytes:" + str(min(20, max(-1, int(over / a) // 8 * 8 if a else 0))))
     nwit = len(dict(L.R.dec(ws_b).pairs).get(0, L.R.Tag(258, [])).value) if ws_b != b"\xa0" else 0
     ctx.count(f"witnesses:{min(nwit, 8)}")
